@@ -48,10 +48,12 @@ class Item(object):
     def __init__(self, ct, data, epoch, ver=None, tag=''):
         self.ct, self.data, self.epoch, self.ver, self.tag = ct, bytes(data), epoch, ver, tag
         self.prot_ccs = False     # TLS 1.3: send as a protected record with inner type 20
+        self.raw = False          # bytes go on the wire as they are (a record nobody can open)
 
     def copy(self):
         i = Item(self.ct, self.data, self.epoch, self.ver, self.tag)
         i.prot_ccs = self.prot_ccs
+        i.raw = self.raw
         if getattr(self, 'bad_content', False):
             i.bad_content = True
         return i
@@ -96,6 +98,13 @@ def extra_item(what, epoch, ver, version, ref_items):
         c = Certificate(CertificateType.x509, version)
         c.create(X509CertChain([]), bytearray()) if version >= (3, 4) else c.create(X509CertChain([]))
         return Item(hs, c.write(), epoch, ver)
+    if what == 'Undec':
+        # what a stray early-data / wrong-epoch / forged record looks like: application_data outer
+        # type, 40 bytes that open under no key
+        body = bytes((i * 37 + 11) & 0xff for i in range(40))
+        it = Item(ContentType.application_data, b'\x17\x03\x03\x00\x28' + body, epoch, ver)
+        it.raw = True
+        return it
     if what == 'CR':
         from tlslite.constants import ClientCertificateType, HashAlgorithm, SignatureAlgorithm, SignatureScheme
         cr = CertificateRequest(version)
@@ -146,6 +155,9 @@ class DevPeer(object):
         self.swallow_cert = False     # the peer (a server) asked for a certificate it did not plan
         self.orig_getmsg = conn._getMsg
         conn._getMsg = self.getMsg
+        self.orig_nextrec = conn._getNextRecord
+        conn._getNextRecord = self.getNextRecord
+        self.swallowed_warnings = []
         sock.tap = self.tap
         self.applied = []
         self.honest_log = []          # (k, kind, epoch, flight)
@@ -191,6 +203,17 @@ class DevPeer(object):
         for r in self.orig_getmsg(expectedType, secondaryType, constructorType):
             yield r
 
+    def getNextRecord(self):
+        """peer side only: a no_renegotiation warning from the endpoint under test does not stop
+        the deviating peer"""
+        for r in self.orig_nextrec():
+            if isinstance(r, tuple) and r[0].type == ContentType.alert:
+                b = r[1].bytes
+                if len(b) >= 2 and b[0] == AlertLevel.warning and b[1] == AlertDescription.no_renegotiation:
+                    self.swallowed_warnings.append(int(b[1]))
+                    continue
+            yield r
+
     def _hold(self, it, k=None, extra=False, do_hash=True):
         """queue an Item for the current flight; the peer's OWN transcript covers exactly what it
         really sends (a consistently deviating peer, not an on-path modification)"""
@@ -217,7 +240,9 @@ class DevPeer(object):
                 x = extra_item(o['what'], it.epoch if o.get('epoch') is None else o['epoch'], it.ver,
                                self.version, self.sent_items)
                 if x is not None:
-                    self._hold(x, None, True)
+                    # nohash: the message stays out of the peer's transcript (what an endpoint that
+                    # silently skips it would compute)
+                    self._hold(x, None, True, do_hash=not o.get('nohash'))
                     self.applied.append(o)
         if any(o['op'] == 'swap' for o in mine) and self.swap_pending is None:
             # the message is held back; it enters the peer's transcript now (values the peer derives
@@ -300,6 +325,8 @@ class DevPeer(object):
                 k = 'AFatal'
             return (it.epoch, 'PAlert', k)
         if ct == ContentType.application_data:
+            if it.raw:
+                return (2, 'PApp', False, 'undec')
             return (it.epoch, 'PApp', len(it.data) == 0)
         if ct == ContentType.heartbeat:
             return (it.epoch, 'PHb')
@@ -325,7 +352,9 @@ class DevPeer(object):
         self.cur = first + len(syms) - 1      # the record is "complete" for the EUT at its last symbol
         try:
             data = b''.join(i.data for i in items)
-            if it0.prot_ccs:
+            if it0.raw:
+                self.conn.sock.send(bytearray(it0.data))
+            elif it0.prot_ccs:
                 for r in self._send_protected(ContentType.change_cipher_spec, data):
                     yield r
             else:
@@ -601,6 +630,9 @@ def flavour_setup(fl):
             skw.update(certChain=chain, privateKey=key)
         else:
             skw.update(certChain=chain, privateKey=key)
+        if fl.get('early'):
+            cs.pskConfigs = [PSK]
+            ss.pskConfigs = [PSK]
         if fl.get('hrr'):
             cs.keyShares = ['secp256r1']
             ss.keyShares = ['x25519']
@@ -630,6 +662,25 @@ def run_live(fl, ops, post=None, seed=1):
     from tlslite.api import SessionCache
     rnd = loop.DetRandom(seed).install()
     clk = loop.FakeClock().install()
+    restore = None
+    if fl.get('early'):
+        # the (honest) peer client offers 0-RTT in its first ClientHello only
+        from tlslite.handshakehelpers import HandshakeHelpers
+        from tlslite.constants import ExtensionType
+        from tlslite.extensions import TLSExtension
+        orig_ub = HandshakeHelpers.__dict__['update_binders']
+        calls = {'n': 0}
+
+        def ub(client_hello, *a, **kw):
+            calls['n'] += 1
+            exts = client_hello.extensions
+            exts[:] = [e for e in exts if e.extType != ExtensionType.early_data]
+            if calls['n'] == 1:
+                exts.insert(len(exts) - 1, TLSExtension(extType=ExtensionType.early_data).create(
+                    ExtensionType.early_data, bytearray(0)))
+            return orig_ub.__func__(client_hello, *a, **kw)
+        HandshakeHelpers.update_binders = staticmethod(ub)
+        restore = (HandshakeHelpers, orig_ub)
     try:
         kind, ckw, skw = flavour_setup(fl)
         session = None
@@ -666,12 +717,14 @@ def run_live(fl, ops, post=None, seed=1):
                'honest_log': list(dp.honest_log), 'applied': list(dp.applied),
                'eut_closed': bool(eut.closed), 'resumed': bool(getattr(eut, 'resumed', False)),
                'eut_readbuf': len(eut._readBuffer),
-               'eut_tickets12': len(eut.tls_1_0_tickets)}
+               'eut_tickets12': len(eut.tls_1_0_tickets), 'swallowed': list(dp.swallowed_warnings)}
         if res[ei][0] == 'exc' and out['eut'][0] == 'Other':
             out['eut_exc'] = repr(res[ei][1])
         if post is not None and out['eut'][0] == 'ok':
             out['post'] = post(pair, eut, peer, dp, eut_is_client)
         return out
     finally:
+        if restore is not None:
+            setattr(restore[0], 'update_binders', restore[1])
         rnd.uninstall()
         clk.uninstall()
